@@ -18,6 +18,7 @@
      "resetbleed"  json_tokener_reset leaves high_surrogate / ucs_char / st_pos (D04a)
      "sq_name"     strict mode accepts a single-quoted member name (D16a)
      "leadzero"    strict mode's leading-zero rule only covers positive non-zero integers (D16b)
+     "comment_star" a block comment ending in "**/" is not terminated (D16c)
      "name_nul"    member names are cut at an escaped NUL (D01a; kept as a known finding)
    and two pure mutants for the depth check: "depth_off_array", "depth_off_object". *)
 EXTENDS Naturals, Integers, Sequences, FiniteSets, TLC, Text, Wide
@@ -182,7 +183,9 @@ Redo(tok, c, fuel) ==
         ELSE E("comment")
   [] st = "comment" -> IF c = 42 THEN A(SetSt1(tok, "comment_end")) ELSE A(tok)
   [] st = "comment_eol" -> IF c = 10 THEN A(SetSt1(tok, "eatws")) ELSE A(tok)
-  [] st = "comment_end" -> IF c = 47 THEN A(SetSt1(tok, "eatws")) ELSE A(SetSt1(tok, "comment"))
+  [] st = "comment_end" -> IF c = 47 THEN A(SetSt1(tok, "eatws"))
+                           ELSE IF c = 42 /\ "comment_star" \notin AsFound THEN A(tok)      \* "**/": this '*' may be the one that ends it (D16c)
+                           ELSE A(SetSt1(tok, "comment"))
   [] st \in {"string", "object_field"} ->
         IF c = tok.quote
         THEN IF st = "string"
@@ -315,4 +318,33 @@ Reset(tok) == LET base == [tok EXCEPT !.stack = <<Level0>>, !.err = "success", !
 Call(tok, text) == LET r == FoldLeft(LAMBDA t, c : IF t.done THEN t ELSE Feed(t, c), NewCall(tok), text)
                    IN IF r.done THEN r ELSE EndChunk(r)
 Outcome(tok) == [err |-> tok.err, ret |-> tok.ret, end |-> tok.off]
+
+\* ---- streams: several documents in one buffer, parsed by ONE parser that is resumed at the reported end
+\* position without a reset.  cuts = ascending chunk boundaries; a later chunk is only given after "continue",
+\* after a success the rest of the current chunk is given next.  Result: the sequence of outcomes
+\* [st, val, end (from the start of the buffer)]; it ends with the first error, or with "continue" at the end.
+StreamOutcome(t, pos) == [st |-> t.err, val |-> t.ret, end |-> pos + t.off]
+RECURSIVE StreamRun(_, _, _, _, _, _)
+StreamRun(tok, text, pos, cuts, acc, fuel) ==
+    IF pos >= Len(text) \/ fuel = 0 THEN acc
+    ELSE LET later == SelectSeq(cuts, LAMBDA c : c > pos)
+             stop == IF Len(later) = 0 THEN Len(text) ELSE later[1]
+             t == Call(tok, SubSeq(text, pos + 1, stop))
+         IN IF t.err = "continue" THEN (IF stop = Len(text) THEN Append(acc, StreamOutcome(t, pos))
+                                        ELSE StreamRun(t, text, stop, cuts, acc, fuel - 1))
+            ELSE IF t.err = "success" THEN StreamRun(t, text, pos + t.off, cuts, Append(acc, StreamOutcome(t, pos)), fuel - 1)
+            ELSE Append(acc, StreamOutcome(t, pos))
+Stream(tok, text, cuts) == StreamRun(tok, text, 0, cuts, <<>>, 64)
+\* What is compared between two chunkings of a stream: values and statuses, and the position of an error.  The end
+\* position of a SUCCESS is not: after a value the parser goes on eating white space and comments, so a call that is
+\* cut right after the value reports the end there and a longer call further on - both are positions at which
+\* resuming yields the next document (C03's end-position clause is about calls that reported "continue").
+\* A clean stream (of a NUL-terminated buffer): every outcome but the last is a success and the last is the end-of-data
+\* report at the terminator.  Only clean streams are compared across chunkings: when junk follows a document, whether
+\* that document is still delivered depends on whether the call that completed it also saw the junk (e.g. `""/`), and
+\* C03 relates calls only across a "continue".
+StreamClean(outs, n) == /\ Len(outs) >= 1 /\ outs[Len(outs)].st = "eof" /\ outs[Len(outs)].end = n - 1
+                        /\ \A i \in 1..(Len(outs) - 1) : outs[i].st = "success"
+StreamNorm(outs) == [i \in 1..Len(outs) |-> IF outs[i].st = "success" THEN [st |-> "success", val |-> outs[i].val]
+                                              ELSE [st |-> outs[i].st, end |-> outs[i].end]]
 ====
